@@ -188,6 +188,11 @@ def run(case):
                 skip(f"first_sensitivity_raises:{cfg['kind']}:{type(ex).__name__}")
                 res["trace"].append("E-skipfirst")
                 break
+            if cfg["kind"] == "EigenSolveSparse" and "singular" in str(ex).lower():
+                # the eigenvector adjoint factorises A - lambda*B, singular by construction; whether SuperLU notices depends on the
+                # rounding of lambda for these inputs, not on the history (observation recorded in DESIGN 10.4; C01 territory)
+                skip("eigvec_adjoint_singular_shifted_system")
+                break
             viol("exception", f"sensitivity() (k={k}, w={op['w']}, mask={mask}) raised {type(ex).__name__}: {str(ex)[:160]} "
                  f"after an earlier seeded sensitivity() of this module succeeded", at, feats=["op=sensitivity"])
             break
